@@ -417,8 +417,15 @@ class Ref:
 
     def t_add_boundary(self, op, env):
         mid, typ = op["m"], op["type"]
+        brand_new = None
         if mid not in self.mets:
-            return "unknown"
+            nm = op.get("new_met")
+            if not nm or not mid or any(ch.isspace() for ch in mid):
+                return "unknown"
+            # a metabolite object the model does not have yet: it comes in with the boundary reaction - or not at all
+            brand_new = {"name": nm.get("name", ""), "formula": nm.get("formula"), "charge": nm.get("charge"),
+                         "compartment": nm.get("compartment"), "notes": {}, "annotation": {}}
+        the_met = brand_new if brand_new is not None else self.mets[mid]
         lb = env.cfg_lb if op.get("lb") is None else op["lb"]
         ub = env.cfg_ub if op.get("ub") is None else op["ub"]
         rid, sbo = op.get("rid"), op.get("sbo")
@@ -426,7 +433,7 @@ class Ref:
             ext = env.observed.get("external")
             if ext is None:
                 return "unknown"
-            if self.mets[mid]["compartment"] != ext:
+            if the_met["compartment"] != ext:
                 return "raises"
         if typ in PREFIX:
             if typ == "demand":
@@ -441,8 +448,10 @@ class Ref:
             return "raises"
         if lb > ub:
             return "unknown"
+        if brand_new is not None:
+            self.mets[mid] = brand_new
         self.rxns[rid] = {"lb": lb, "ub": ub, "mets": {mid: -1}, "rule": None,
-                          "name": f"{self.mets[mid]['name']} {typ}", "subsystem": "",
+                          "name": f"{the_met['name']} {typ}", "subsystem": "",
                           "notes": {}, "annotation": ({"sbo": sbo} if sbo else {})}
         return "ok"
 
